@@ -109,6 +109,14 @@ def apply_edit(sources, edit):
     if edit.get('transform') == 'ast-roundtrip':
         # whole-tree reformat: comments dropped, layout normalised
         return {p: ast.unparse(ast.parse(t)) for p, t in sources.items()}
+    if edit.get('transform') in TRANSFORMS:
+        out = {}
+        for p, t in sources.items():
+            tree = ast.parse(t)
+            TRANSFORMS[edit['transform']](tree)
+            ast.fix_missing_locations(tree)
+            out[p] = ast.unparse(tree)
+        return out
     src = dict(sources)
     edits = edit['edits'] if 'edits' in edit else [edit]
     for e in edits:
@@ -125,6 +133,93 @@ def apply_edit(sources, edit):
             return None
         src[e['path']] = text
     return src
+
+
+def _alpha_rename(tree):
+    """Every local variable of every function gets another name (parameters,
+    globals, names of nested functions / classes / imports and names that
+    are read as free variables by a nested function stay)."""
+    import builtins
+
+    class R(ast.NodeTransformer):
+        def __init__(self, mapping):
+            self.m = mapping
+
+        def visit_Name(self, node):
+            if node.id in self.m:
+                node.id = self.m[node.id]
+            return node
+
+        def visit_ExceptHandler(self, node):
+            if node.name in self.m:
+                node.name = self.m[node.name]
+            return self.generic_visit(node)
+
+    def scope_nodes(fn):
+        """Nodes of fn's own scope (nested functions / lambdas / classes are
+        other scopes; comprehensions are walked: their targets are renamed
+        consistently anyway)."""
+        stack = list(ast.iter_child_nodes(fn))
+        while stack:
+            n = stack.pop()
+            yield n
+            if isinstance(n, (ast.FunctionDef, ast.AsyncFunctionDef,
+                              ast.Lambda, ast.ClassDef)):
+                continue
+            stack.extend(ast.iter_child_nodes(n))
+
+    for fn in [n for n in ast.walk(tree)
+               if isinstance(n, (ast.FunctionDef, ast.AsyncFunctionDef))]:
+        own = list(scope_nodes(fn))
+        if any(isinstance(n, (ast.FunctionDef, ast.AsyncFunctionDef,
+                              ast.Lambda, ast.ClassDef, ast.Global,
+                              ast.Nonlocal)) for n in own):
+            continue        # closures: free variables must keep their name
+        if any(isinstance(n, ast.Call) and isinstance(n.func, ast.Name) and
+               n.func.id in ('locals', 'vars', 'eval', 'exec')
+               for n in own):
+            continue
+        params = {a.arg for a in ast.walk(fn.args) if isinstance(a, ast.arg)}
+        stored = {n.id for n in own if isinstance(n, ast.Name) and
+                  isinstance(n.ctx, (ast.Store, ast.Del))}
+        stored |= {n.name for n in own if isinstance(n, ast.ExceptHandler)
+                   and n.name}
+        imported = {(a.asname or a.name).split('.')[0] for n in own
+                    if isinstance(n, (ast.Import, ast.ImportFrom))
+                    for a in n.names}
+        names = stored - params - imported - set(dir(builtins))
+        used = {n.id for n in own if isinstance(n, ast.Name)} | params
+        mapping = {}
+        for nm in sorted(names):
+            new = nm + '_v'
+            while new in used or new in mapping.values():
+                new += '_'
+            mapping[nm] = new
+        if mapping:
+            r = R(mapping)
+            fn.body = [r.visit(st) for st in fn.body]
+
+
+def _swap_else(tree):
+    """`if c: A else: B` (not an elif chain) becomes `if not c: B else: A`."""
+    class S(ast.NodeTransformer):
+        def visit_If(self, node):
+            self.generic_visit(node)
+            if node.orelse and not (len(node.orelse) == 1 and
+                                    isinstance(node.orelse[0], ast.If)) \
+                    and not (len(node.body) == 1 and
+                             isinstance(node.body[0], ast.If)):
+                t = node.test
+                node.test = t.operand if isinstance(t, ast.UnaryOp) and \
+                    isinstance(t.op, ast.Not) else \
+                    ast.UnaryOp(op=ast.Not(), operand=t)
+                node.body, node.orelse = node.orelse, node.body
+            return node
+    S().visit(tree)
+
+
+TRANSFORMS = {'alpha-rename-locals': _alpha_rename,
+              'swap-if-else': _swap_else}
 
 
 def run_one(args):
@@ -168,6 +263,9 @@ def run_suite(pid, sources, templates, jobs=16, corpora=False):
     eq = [m for m in M.EQUIVALENTS if pid in m.get('pids', [pid])]
     eq.append({'name': 'ast-roundtrip-of-every-module',
                'transform': 'ast-roundtrip', 'pids': [pid]})
+    for tname in sorted(TRANSFORMS):
+        eq.append({'name': tname + '-in-every-function', 'transform': tname,
+                   'pids': [pid]})
     if corpora:
         # the committed corpora written by independent sub-agents: seeded
         # breaking changes this property's check is on record as catching,
